@@ -60,7 +60,9 @@ def main(argv):
         if r.get("error") or r.get("rc") == 2:
             errors.append(mid)
         elif not r.get("detected"):
-            if meta.get("expected_quick") == "miss" and tier == "quick":
+            if meta.get("known_missed"):
+                print("  (%s is documented as NOT caught: see its meta.json and DESIGN.md section 9)" % mid)
+            elif meta.get("expected_quick") == "miss" and tier == "quick":
                 print("  (%s is documented as caught by the thorough tier only)" % mid)
             else:
                 missed.append(mid)
